@@ -4,7 +4,7 @@ from vlib import *
 import gen_vi, gen_ex
 from props import vilib, exlib
 
-PROP = "C05"; MODULES = ["NeatviVerif.Props.C05", "NeatviVerif.Props.C05b", "NeatviVerif.Props.C05c", "NeatviVerif.Props.C05d", "NeatviVerif.Props.C05g", "NeatviVerif.Props.C05e", "NeatviVerif.Props.C05f", "NeatviVerif.Props.C05h", "NeatviVerif.Props.C05i"]
+PROP = "C05"; MODULES = ["NeatviVerif.Props.C05", "NeatviVerif.Props.C05b", "NeatviVerif.Props.C05c", "NeatviVerif.Props.C05d", "NeatviVerif.Props.C05g", "NeatviVerif.Props.C05e", "NeatviVerif.Props.C05f", "NeatviVerif.Props.C05h", "NeatviVerif.Props.C05i", "NeatviVerif.Props.C05j"]
 QUIT = "1b1b3a0571210a"        # ESC ESC : ^E q ! RET  (^E: back to the plain keymap at the prompt)
 
 def with_quit(c):
